@@ -20,25 +20,25 @@ chk("C07", "exploration", "E4",
 
 chk("C12", "exploration", "E4",
     "bounded-exhaustive enumeration of all feed-forward DAGs on a small node set, every solver entry point vs a topological-order reference",
-    "Every feed-forward edge set over {bias, input(s), <=2..3 hidden, output(s)} in which every neuron is reachable from a sensor is built as a real Network; under weight rotations, every registered activation type (uniform and mixed) and every input vector over a 4-value alphabet, Network.ForwardSteps(D), ForwardSteps(D+2), RecursiveSteps and the fast solver's ForwardSteps(D), ForwardSteps(D+2), RecursiveSteps and Relax are compared (1e-11 relative) with a Kahn-order evaluation that uses the library's registered activation functions. The space named in the evidence rule is enumerated completely.",
+    "Every feed-forward edge set over {bias, input(s), <=2..3 hidden, output(s)} in which every neuron is reachable from a sensor is built as a real Network; under weight rotations, every registered activation type (uniform and mixed) and every input vector over a 4-value alphabet, Network.ForwardSteps(D), ForwardSteps(D+2), RecursiveSteps and the fast solver's ForwardSteps(D), ForwardSteps(D+2), RecursiveSteps and Relax (the fast solver derived from the network, restored from its written model, and constructed directly with bias links as connections, flushed before use) are compared (1e-11 relative) with a Kahn-order evaluation that uses the library's registered activation functions. The space named in the evidence rule is enumerated completely.",
     "Node sets bounded (quick 5 nodes, thorough up to 7); weights/inputs from non-saturating menus; the activation functions themselves are trusted here (C18 checks them).",
     "DESIGN.md section 3 C12")
 
 chk("C14", "exploration", "E4",
     "bounded-exhaustive enumeration of all digraphs on k neurons + 1 sensor, all caps and all pairs of consecutive depth queries, vs DP longest path",
-    "ALL digraphs (every neuron->neuron edge including self-loops, every sensor->neuron edge) over 2 hidden + 1 output (quick) and 3 hidden + 1 output / 2 hidden + 2 outputs (thorough) are built as real networks; for each, every cap 0..n+1 and every ordered pair of consecutive queries is executed: DAG depth == DP longest path ending in an output, cyclic graphs terminate within [0, #nodes], cap rule, second query == same query on a fresh network, no visited mark left. Hangs and crashes of a worker are turned into verdicts.",
+    "ALL digraphs (every neuron->neuron edge including self-loops, every sensor->neuron edge) over 2 hidden + 1 output (quick) and 3 hidden + 1 output / 2 hidden + 2 outputs (thorough) are built as real networks; for each, every cap 0..n+1 and every ordered pair of consecutive queries is executed: DAG depth == DP longest path ending in an output, cyclic graphs terminate within [0, #nodes], cap rule, second query == same query on a fresh network, no visited mark left; MaxActivationDepth(), a negative cap and the same graph built with an empty control-node list agree. Hangs and crashes of a worker are turned into verdicts.",
     "Sensors are interchangeable for depth so one sensor is used; modular networks excluded as in the statement; hang guard is generous wall-clock, only used to convert non-termination into a verdict.",
     "DESIGN.md section 3 C14")
 
 chk("C18", "exploration", "E4",
     "exhaustive sweep of float32-representable inputs (all 2^32 in thorough), all 256 type codes and all near-miss names vs closed forms",
-    "Every registered scalar activation is evaluated on every float32 bit pattern with 16 low bits clear (quick) / every finite float32 bit pattern (thorough) widened to float64, plus breakpoint neighbourhoods, -0.0 and powers of ten up to 1e300, and compared with closed forms written from the documentation (4 ulps), finiteness, documented range and monotonicity between numeric neighbours; module activations on all vectors of length 1..3 over an 8-value alphabet; all 256 type codes and every registered name with every 1-character deletion/substitution for the lookup bijection and error clauses.",
+    "Every registered scalar activation is evaluated on every float32 bit pattern with 16 low bits clear (quick) / every finite float32 bit pattern (thorough) widened to float64, plus breakpoint neighbourhoods, -0.0 and powers of ten up to 1e300, and compared with closed forms written from the documentation (4 ulps), finiteness, documented range and monotonicity between numeric neighbours; module activations on all vectors of length 1..3 over an 8-value alphabet through ActivateModuleByType, network.ActivateModule and a fast solver holding a list of three modules; registration and same-name re-registration on a fresh factory; all 256 type codes and every registered name with every 1-character deletion/substitution for the lookup bijection and error clauses.",
     "float64 inputs that are not float32-representable are covered only by the structured extras; closed forms are my reading of the doc comments.",
     "DESIGN.md section 3 C18")
 
 chk("C19", "exploration", "E4",
     "bounded-exhaustive enumeration of all series up to length L over a 7-value alphabet and all small experiment shapes vs textbook definitions",
-    "All sequences of length 0..5 (quick) / 0..7 (thorough) over {-2.5,0,1,1,3,1e10,1e-10} - every order and tie pattern of every multiset - are passed to each Floats accessor and compared with textbook definitions computed on a sorted copy (empirical quantile at ceil(p*n)); a panic is a violation; NaN/0 on the empty series. All experiments with 0..2(3) trials of 0..3 generations over a 6-record menu: every aggregate accessor is recomputed directly from the recorded generations.",
+    "All sequences of length 0..5 (quick) / 0..7 (thorough) over {-2.5,0,1,1,3,1e10,1e-10} - every order and tie pattern of every multiset - are passed to each Floats accessor and compared with textbook definitions computed on a sorted copy (empirical quantile at ceil(p*n)); a panic is a violation; NaN/0 on the empty series. All experiments with 0..2(3) trials of 0..3 generations over a 6-record menu: every aggregate accessor (experiment and trial level incl. Trial.Average) is recomputed directly from the recorded generations; usage sequences: in-place sort, caller writes to returned series, another experiment read into the queried object.",
     "Alphabet and length bounded; gonum is trusted for nothing (reference is independent).",
     "DESIGN.md section 3 C19")
 
@@ -46,7 +46,7 @@ ENGINES.append({"name": "E1 choice-tree explorer (deviation-bounded, stateless)"
   "serves_properties": ["C01", "C02", "C03", "C09", "C10", "C17", "C20"],
   "kind_free_text": "every random draw of the real code is a choice point with a small menu (vrand shim through the build overlay); all executions within d deviations of several base policies are run to completion and checked"})
 
-_E1NOTE = ("Bounds: populations <= 12, 6-8 epochs, <= 1 deviation per run in quick and <= 2 on a scenario subset in thorough; random magnitudes from a 3-point menu; "
+_E1NOTE = ("Every options object is a changed by-value copy of a used decoy options value. Bounds: populations <= 12 (hand-built up to 30), 6-8 epochs, <= 1 deviation per run in quick and <= 2 on a scenario subset in thorough; random magnitudes from a 3-point menu; "
            "no model: every explored trace is an implementation trace. Trusts go build -overlay, the import rewrite math/rand -> vrand and the accessor file.")
 
 chk("C02", "model_checking", "E1",
@@ -56,7 +56,7 @@ chk("C02", "model_checking", "E1",
 
 chk("C03", "model_checking", "E1",
     "stateless deviation-bounded exploration of multi-epoch runs with an innovation ledger over the whole history",
-    "Same execution space as C02 with a ledger attached for the whole run: innovation -> (in,out,recurrent) and node id -> role never change; every number first seen in a generation exceeds all held before; identical new links of one sequential generation carry one number and the generation's record never holds one innovation twice; record empty after each epoch; counters initialised past the initial population for NewPopulation and NewPopulationRandom.",
+    "Same execution space as C02 with a ledger attached for the whole run: innovation -> (in,out,recurrent) and node id -> role never change; every number first seen in a generation exceeds all held before; identical new links of one sequential generation carry one number and the generation's record never holds one innovation twice; record empty after each epoch; counters initialised past the initial population (module genes included) for NewPopulation, NewPopulationRandom and ReadPopulation. Plus a generation stage at operator level: every sequence of 2-3 (thorough 4) (parent, structural mutator) steps of one sequential generation over a pool of four parents (one link under two numbers, forward/recurrent pair, late sensor) with a real Population as the record, all choice sequences within 1 deviation: same new link -> same number, same split of the same gene -> same node id and numbers, numbers fresh, no record twice.",
     _E1NOTE, "DESIGN.md section 3 C03")
 
 chk("C09", "model_checking", "E1",
@@ -73,7 +73,7 @@ ENGINES.append({"name": "E2 explicit-state search over genomes (GenomeSpace)", "
   "serves_properties": ["C01", "C05", "C06"],
   "kind_free_text": "breadth-first closure of start genomes under all genetic operators of the real code x all their choice sequences within a deviation bound, one shared innovation record per search, states deduplicated by a canonical structural key with a stated correctness argument, per-transition oracles"})
 
-_E2NOTE = ("Bounds: 9 families of start genomes, breadth-first depth 3 (quick; 2 for the largest families, 1 for the 16-gene genome) / depth 4 under a per-family time cap reported in the evidence (thorough); operator choice sequences within 2 deviations of Z/M/A (1 for the many-draw weight/trait mutators and for crossovers); genomes reached have <= ~10 nodes / ~15 genes. "
+_E2NOTE = ("Besides the breadth-first search (which rebuilds a state before every operator): every sequence of 2-3 (thorough 4) unary operators applied to ONE live genome object under every choice sequence within 1 deviation, and add-link / connect-sensors under an old record that knows every missing link under numbers falling into every gap of the gene list. Bounds: 9 families of start genomes, breadth-first depth 3 (quick; 2 for the largest families, 1 for the 16-gene genome) / depth 4 under a per-family time cap reported in the evidence (thorough); operator choice sequences within 2 deviations of Z/M/A (1 for the many-draw weight/trait mutators and for crossovers); genomes reached have <= ~10 nodes / ~15 genes. "
            "No model: every transition is a call of the real operator through the accessor overlay.")
 
 chk("C01", "model_checking", "E2+E1",
@@ -94,18 +94,18 @@ chk("C05", "model_checking", "E2",
 
 chk("C06", "model_checking", "E2+E1",
     "explicit-state search supplies the genomes; duplicate + pointer walk + mutate-one-side-compare-the-other under deviation-bounded enumeration of the mutators' choices; E1 over spawning",
-    "Every GenomeSpace state plus corner genomes (mostly disabled, no trait references, non-default activations, modular with enabled/disabled module) is duplicated: the copy must be bit-equal (id excepted), share no pointer with the original (full object-graph walk), and mutating either side with each of 9 mutators (every choice sequence within the bound) must leave the other side's snapshot unchanged. NewPopulation from 5 start genomes, sizes 1-4, all draw sequences within the bound: spawned genomes differ from the start genome only in weights, mutation number mirrors weight.",
+    "Every GenomeSpace state plus corner genomes (mostly disabled, no trait references, non-default activations, modular with enabled/disabled module, unsorted) is duplicated, as built and after the original was used (expressed, node parameters set): the copy must be bit-equal (id excepted), nothing reachable from the copy may be reachable from the original (generic reflection walk over both complete object graphs incl. unexported fields), expressing the copy leaves the original's network untouched, and mutating either side with each of 9 mutators (every choice sequence within the bound) must leave the other side's snapshot unchanged. NewPopulation from 5 start genomes, sizes 1-4, all draw sequences within the bound: spawned genomes differ from the start genome only in weights, mutation number mirrors weight.",
     _E2NOTE, "DESIGN.md section 3 C06")
 
 chk("C08", "model_checking", "E4+E1",
     "bounded-exhaustive enumeration of existing populations x ordered batches with a lock-step list-of-lists reference; the same reference on every baby batch of deviation-bounded multi-epoch runs",
-    "(a) A family of structurally different genomes (8 quick; 12 thorough: all 8 hidden-node subsets, half of them in two weight settings) differing by excess and by disjoint genes: every way to pre-speciate an ordered choice of up to 2 members x every ordered batch of up to 3 further members (plus a repeated member) x 5 thresholds x both methods x 3 coefficient rows x 2 id layouts; the real speciate is followed organism by organism by a reference that recomputes the library's distance to each representative (any minimiser accepted on ties; new species iff none below threshold, with an id above every id issued before) and the final species lists are compared. (b) the same reference on the babies of every epoch of the E1 runs (species-wise driving) and on NewPopulation / NewPopulationRandom / ReadPopulation.",
-    "Family and batch sizes bounded; the distance function itself is trusted here (C07 checks it). Trusts overlay + accessors.",
+    "(a) A family of structurally different genomes (8 quick; 12 thorough: all 8 hidden-node subsets, half of them in two weight settings) differing by excess and by disjoint genes: every way to pre-speciate an ordered choice of up to 2 members x every ordered batch of up to 3 further members (plus a repeated member) x 5 thresholds x both methods x 3 coefficient rows x 2 id layouts; the real speciate is followed organism by organism by a reference that recomputes the library's distance to each representative (any minimiser accepted on ties; new species iff none below threshold, with an id above every id issued before) and the final species lists are compared; the distance speciation works with is compared with the set-arithmetic formula for every pair. (b) the same reference on the babies of every epoch of the E1 runs (species-wise driving) and on NewPopulation / NewPopulationRandom / ReadPopulation.",
+    "Family and batch sizes bounded. Trusts overlay + accessors.",
     "DESIGN.md section 3 C08")
 
 chk("C11", "exploration", "E4",
     "bounded-exhaustive enumeration of genomes (every absent/enabled/disabled assignment to every candidate link over three node layouts, recurrence and module variants), every pair of ids queried, vs a set-based reference",
-    "Over three node layouts (sensors first; sensors with larger ids than neurons; two outputs) every assignment {absent, enabled, disabled} to every candidate link (all sources x all non-sensor targets incl. self-loops) is built as a genome and expressed; plus recurrent/parallel-link variants and modular genomes (enabled, disabled, two modules). For each network: nodes (id, role, activation, order), inputs/outputs in genome order (also behaviourally via LoadSensors), link multisets per node with pointer wiring, control-node wiring, NodeCount/LinkCount/Complexity, and Node/Nodes/From/To/Edge/WeightedEdge/Weight/HasEdgeFromTo/HasEdgeBetween for all ordered pairs of ids including absent ones (must be nil/false/empty); organism phenotype caching and rebuild.",
+    "Over three node layouts (sensors first; sensors with larger ids than neurons; two outputs) every assignment {absent, enabled, disabled} to every candidate link (all sources x all non-sensor targets incl. self-loops) is built as a genome and expressed; plus recurrent/parallel-link variants and modular genomes (enabled, disabled, two modules in all enabled/disabled combinations, three intersecting modules in two orders). For each network: nodes (id, role, activation, order), inputs/outputs in genome order (also behaviourally via LoadSensors), link multisets per node with pointer wiring, control-node wiring, NodeCount/LinkCount/Complexity, and Node/Nodes/From/To/Edge/WeightedEdge/Weight/HasEdgeFromTo/HasEdgeBetween for all ordered pairs of ids including absent ones (must be nil/false/empty); organism phenotype caching and rebuild.",
     "Node sets of 4-5 nodes; weights from the hard-float alphabet; From/To compared as sets.",
     "DESIGN.md section 3 C11")
 
@@ -123,7 +123,7 @@ chk("C15", "exploration", "E4",
 
 chk("C20", "model_checking", "E1",
     "complete enumeration of the tree of evaluator answers (environment choices) on the real Execute, compared with a reference protocol state machine",
-    "For NumRuns x NumGenerations in {0..3}^2 (0..4 thorough), observer present/absent, both executors and a context cancelled before the start or not, EVERY script of evaluator answers {unsolved, solved, error, cancel+unsolved, cancel+solved} is executed on the real Experiment.Execute (4-organism XOR population) - the tree is enumerated completely, no deviation bound. A reference state machine written from the statement gives the exact notification / evaluation sequence for undisturbed runs and the abort rule (same prefix, no further evaluation, the evaluator's error or context.Canceled) for aborted ones, the recorded trials, and the population handling (fresh per trial, start topology, turnover between unsolved generations, none after solved).",
+    "For NumRuns x NumGenerations in {0..3}^2 (0..4 thorough), observer present/absent, both executors, a context cancelled or past its deadline before the start or not, a fresh / pre-allocated / still filled Trials slice, options carried directly or in a nested context, EVERY script of evaluator answers {unsolved, solved, error, cancel+unsolved, cancel+solved} is executed on the real Experiment.Execute (4-organism XOR population) - the tree is enumerated completely, no deviation bound. A reference state machine written from the statement gives the exact notification / evaluation sequence for undisturbed runs and the abort rule (same prefix, no further evaluation, the evaluator's error or context.Canceled) for aborted ones, the recorded trials, and the population handling (fresh per trial, start topology, turnover between unsolved generations, none after solved).",
     "Runs/generations bounded by 3 (4); the random draws of evolution are not enumerated here (they do not influence the protocol).",
     "DESIGN.md section 3 C20")
 
@@ -133,12 +133,12 @@ ENGINES.append({"name": "E3 controlled scheduler + vector-clock monitor + free-r
 
 chk("C16", "model_checking", "E3",
     "stateless preemption-bounded exploration of all interleavings of the real parallel executor under a controlled scheduler, with a vector-clock happens-before monitor; plus a free-running race-detector pass",
-    "For scenarios in which 2-3 species innovate on shared structure in the same epoch (all add-node, all add-link, mixed with mating and interspecies dad, optionally after a warm-up epoch) ALL interleavings of the real ParallelPopulationEpochExecutor.NextEpoch at its synchronisation operations and Population method entries are enumerated with at most 2 (quick) / 3 (thorough) preemptions; on every schedule: no deadlock, panic or livelock, no happens-before race on Population.innovations / nextInnovNum / nextNodeId, no epoch error, exact size and partition, well-formed genomes, innovation ledger. Thread-local random answers keep each thread's data schedule-independent. The same bodies run free under Go's race detector (6 / 60 runs, GOMAXPROCS 2 and 16).",
+    "For scenarios in which 2-3 species innovate on shared structure in the same epoch (all add-node, all add-link, mixed with mating and interspecies dad, optionally after a warm-up epoch) ALL interleavings of the real ParallelPopulationEpochExecutor.NextEpoch at its synchronisation operations and Population method entries are enumerated with at most 2 (quick) / 3 (thorough) preemptions; on every schedule: no deadlock, panic or livelock, no happens-before race on Population.innovations / nextInnovNum / nextNodeId, no epoch error, exact size and partition, well-formed genomes, innovation ledger. Thread-local random answers keep each thread's data schedule-independent. sync.Pool is a deterministic LIFO stand-in with scheduling points. The same bodies run free under Go's race detector (6 / 60 runs, GOMAXPROCS 2 and 16).",
     "Preemption bound; <= 3 reproduction threads; sequentially consistent interleavings only; race-freedom outside the anchored fields rests on the (not schedule-exhaustive) race-detector pass. Trusts the instrumenter's rewriting of go/chan/sync constructs and the shims.",
     "DESIGN.md section 3 C16")
 
 chk("C17", "model_checking", "E1",
     "stateless deviation-bounded exploration in which every execution is run twice in-process and the base executions again in a second process; plus seeded runs on the real math/rand repeated in-process and in a second process",
-    "Explorer mode: for every scenario (start genomes incl. one with five disconnected sensors and random populations x configuration rows x landscapes x policies, four node activators) every execution within 1 deviation of the base policy is run twice in the same process (second pass after garbage, forced GC and unrelated evolution); the draw trace (kind and bound of each draw) and the bit-exact population fingerprints after construction and every epoch must agree; replaying recorded answers must meet the same draws; base executions are compared with a fresh process. Real math/rand: 16 (128 thorough) seed x start x configuration runs of 10 epochs repeated in-process under different GOGC / GOMAXPROCS and in a second process.",
+    "Explorer mode: for every scenario (start genomes incl. one with five disconnected sensors and random populations x configuration rows x landscapes x policies, four node activators) every execution within 1 deviation of the base policy is run twice in the same process from the same start genome objects (second pass after garbage, forced GC and unrelated evolution, at log level debug with silenced sinks); the draw trace (kind and bound of each draw) and the bit-exact population fingerprints after construction and every epoch must agree; replaying recorded answers must meet the same draws; base executions are compared with a fresh process. Real math/rand: 16 (128 thorough) seed x start x configuration runs of 10 epochs repeated in-process under different GOGC / GOMAXPROCS and in a second process.",
     "Map-iteration order and wall-clock time cannot be enumerated; dependence on them is caught by repetition (2-3 executions of thousands of runs). Bounds as in C02.",
     "DESIGN.md section 3 C17")
